@@ -1168,6 +1168,7 @@ def _native_histories(tier="quick", seed=0):
             prs = Presentation(io.BytesIO(start)) if start else Presentation()
             hist = []
             save_each = h % 3 == 0
+            last_buf = [None]
             for step in range(L):
                 op = rnd.choice(ops)
                 hist.append(op.__name__)
@@ -1177,7 +1178,9 @@ def _native_histories(tier="quick", seed=0):
                     bad = bad or "history %s: %s raised %r" % (hist, op.__name__, e)
                     break
                 if save_each or step == L - 1:
-                    buf = io.BytesIO()
+                    # every other save goes into the stream the previous save went into (a caller's re-used buffer, positioned at its end)
+                    buf = io.BytesIO() if (step % 2 == 0 or last_buf[0] is None) else last_buf[0]
+                    last_buf[0] = buf
                     evals[0] += 1
                     try:
                         prs.save(buf)
